@@ -5,7 +5,8 @@ C16, C17, C20) are instances of this with their own generator bias and monitors.
 
 Operations (lists, so that cases shrink and replay as plain JSON):
   ['acquire', side, entry_k, host_k]      kernel ACQUIRE (C-encoded bytes) for protect entry entry_k
-  ['expire', side, child_k, hard]         kernel EXPIRE for a CHILD_SA known to both ends (see Sim.shared_children)
+  ['expire', side, child_k, hard, out, gone]  kernel EXPIRE for a CHILD_SA known to both ends (see Sim.shared_children); out: for
+                                          its outbound SA; gone: (hard only) the kernel has deleted the SA already, as Linux does
   ['expire_any', side, child_k, hard]     kernel EXPIRE for any CHILD_SA tracked at `side`
   ['expire_spi', side, spihex, hard]      kernel EXPIRE for an arbitrary SPI
   ['rekey_ike', side, sa_k] ['del_ike', side, sa_k] ['dpd', side, sa_k]     timer triggers (deadline moved, sweep run)
@@ -214,6 +215,13 @@ class Sim:
             sa, c = cands[op[2] % len(cands)]
             spi = bytes(c.inbound_spi if (len(op) < 5 or not op[4]) else c.outbound_spi)
             data = w.expire_bytes(spi, op[3])
+            if op[3] and len(op) > 5 and op[5]:
+                # as Linux does it: on hard expiry the state is deleted first (__xfrm_state_delete), then the key manager is
+                # told; the daemon's own DELSA for it is answered ESRCH
+                for key in [k_ for k_ in ep.kernel.sad if k_[2] == spi.hex() or k_[2] == spi or k_[2] == int.from_bytes(spi, 'big')]:
+                    del ep.kernel.sad[key]
+                    ep.kernel.gone.add(key)
+                self.count('hard-expiry-removed-by-kernel')
             self.event('expire', ep, lambda: ep.step(xfrm=data), op=op,
                        info={'sa': sa, 'child': c, 'hard': bool(op[3]), 'spi': spi})
         elif k == 'expire_spi':
@@ -391,6 +399,8 @@ class Sim:
         """-> new Dgram carrying the edited, correctly re-protected message, or None if not applicable"""
         import os
         ob = self.observer()
+        if kind == 'exchange' and (len(d.data) < 28 or d.data[18] == 34):
+            return None
         if len(d.data) >= 28 and d.data[18] == 34:
             # IKE_SA_INIT travels in the clear: a man in the middle needs no keys
             try:
@@ -408,6 +418,13 @@ class Sim:
         if dec is None:
             return None
         sess, m = dec
+        if kind == 'exchange':
+            # an authentic request of another exchange type than the state allows (same Message ID, same payloads)
+            if m['flags']['response'] or m['exchange'] == arg:
+                return None
+            m2 = dict(m, inner=m['inner'], payloads=[], exchange=arg)
+            data = W.encode_protected(m2, sess.dir_keys(m['flags']['initiator']), os.urandom(16))
+            return WD.Dgram(-2, d.src, d.dst, data, self.w.clock.t, 'rewriter')
         inner = edit_inner(m, kind, arg)
         if inner is None:
             return None
@@ -423,7 +440,8 @@ class Sim:
     def flush(self, max_steps=400):
         """deliver everything in flight, FIFO"""
         n = 0
-        while self.w.inflight and n < max_steps:
+        n0 = len(self.fails)
+        while self.w.inflight and n < max_steps and len(self.fails) == n0:
             self.deliver(self.w.inflight[0], op=['deliver', 0])
             n += 1
         return n
@@ -437,8 +455,11 @@ class Sim:
         With settle=True additionally let DPD notice half-dead IKE_SAs."""
         ticks = 0
         rounds = 0
+        n0 = len(self.fails)
         self.flush()
         while ticks < max_ticks:
+            if len(self.fails) > n0:
+                return              # decided during the end game; what follows a broken step can be very long (retry storms)
             if self.w.inflight:
                 rounds += 1
                 if rounds > 50:            # traffic that never quiesces (a ping-pong): give up, the caller's checks will tell
@@ -454,7 +475,7 @@ class Sim:
             horizon = self.cfg['dpd'] + 25
             t = 0
             while t < horizon + 25 and ticks < max_ticks + horizon + 50:
-                if self.same_ike_sas():
+                if self.same_ike_sas() or len(self.fails) > n0:
                     break
                 self.tick(1.0, ['tick', 1.0])
                 self.flush()
@@ -694,7 +715,7 @@ class SadEqualsTracked(Monitor):
                 sim.fail(f'installed-untracked:{ev.kind}',
                          f'after {describe(ev)} endpoint {ep.name} has kernel SAs no tracked CHILD_SA accounts for: '
                          f'{sorted(inst - tr)[:4]}')
-            if tr - inst:
+            if tr - inst - ep.kernel.gone:
                 sim.fail(f'tracked-absent:{ev.kind}',
                          f'after {describe(ev)} endpoint {ep.name} tracks CHILD_SAs whose kernel SAs are absent: '
                          f'{sorted(tr - inst)[:4]}')
